@@ -90,7 +90,8 @@ func Run(c *core.Ctx) {
 
 	// ---- R1
 	guarded := []string{"err", "store", "rwait"}
-	n, perField := ring.GuardTable(c, "R1.guard", pkg, "Backlog", "mu", guarded)
+	n, perField, immutable := ring.GuardTable(c, "R1.guard", pkg, "Backlog", "mu", guarded)
+	ring.GuardOnTraces(c, "R1.trace", pkg, "Backlog", "mu", guarded, immutable)
 	for _, f := range guarded {
 		if perField[f] < 2 {
 			c.Undecidedf("instances", "R1.guard", token.NoPos, "only %d guarded accesses to Backlog.%s found (%d in total)", perField[f], f, n)
@@ -381,10 +382,17 @@ func r2close(c *core.Ctx, fn *core.Fn) {
 		return
 	}
 	storeVar := fieldVar(c, "Backlog", "store")
-	var bcast, closes verdict
+	var bcast, closes, published verdict
 	for _, t := range res.Traces {
 		if !t.Normal() {
 			continue
+		}
+		// closing the store is what a woken reader's re-check depends on: it happens with
+		// mu held, and the Broadcast sits in the same critical section or comes later
+		if v := ring.PublishedUnderLock(t, res.Recv, "mu",
+			func(e *ring.Event) bool { return ring.IsFieldCall(e, "store", "close") },
+			func(e *ring.Event) bool { return ring.IsCondOp(e, "rwait", "Broadcast") }); v >= 0 {
+			published.add(t, fn.Decl.Pos(), v == 1)
 		}
 		bcast.add(t, fn.Decl.Pos(), t.First(func(e *ring.Event) bool { return ring.IsCondOp(e, "rwait", "Broadcast") }) != nil)
 		closed := t.First(func(e *ring.Event) bool { return ring.IsFieldCall(e, "store", "close") }) != nil
@@ -393,6 +401,8 @@ func r2close(c *core.Ctx, fn *core.Fn) {
 	bcast.report(c, "R2.wake", "CloseWithError/broadcast", fn.Decl.Pos(), "CloseWithError must Broadcast on rwait on every path: closing wakes every waiting reader")
 	closes.report(c, "R2.wake", "CloseWithError/closes-store", fn.Decl.Pos(),
 		"CloseWithError closes the store on every path where one exists: woken readers then fail with ErrClosedBacklog instead of sleeping again")
+	published.report(c, "R2.wake", "CloseWithError/published-under-lock", fn.Decl.Pos(),
+		"the store is closed with mu held, in the critical section of the Broadcast or before it: a reader woken before the store is closed re-checks, finds it open and sleeps for ever (lost wake-up)")
 	// Close() must delegate here
 	if cl := c.FuncOpt(pkg, "Backlog", "Close"); cl != nil {
 		cres := ring.RunSym(c, cl, &ring.Sym{Opaque: func(f *types.Func) bool { return f.Origin() == fn.Obj.Origin() }})
